@@ -287,6 +287,18 @@ impl World {
         o
     }
 
+    fn views_consistent(&self) -> Option<Disc> {
+        for a in self.real_contract_addrs() {
+            let addr = Addr::unchecked(a.clone());
+            let dump = self.app.dump_wasm_raw(&addr);
+            let acc: Vec<(Vec<u8>, Vec<u8>)> = self.app.contract_storage(&addr).range(None, None, cosmwasm_std::Order::Ascending).collect();
+            if dump != acc {
+                return Some(Disc::new(&["C08"], "views:dump-vs-accessor", format!("dump_wasm_raw({}) lists {} records, App::contract_storage {}: {}", a, dump.len(), acc.len(), diff_scans(&acc, &dump).unwrap_or_default())));
+            }
+        }
+        None
+    }
+
     fn observe_model(st: &MState) -> Observed {
         let mut o = Observed::default();
         for (a, c) in &st.contracts {
@@ -537,6 +549,11 @@ impl World {
                 let extra: BTreeSet<String> = it.st.contracts.keys().cloned().collect();
                 let real_obs = self.observe_real(&extra);
                 let model_obs = World::observe_model(&it.st);
+                // the observation goes through the state dump: if the dump and the accessor disagree about a
+                // contract, that is a disagreement of views (C08), not a wrong state
+                if let Some(d) = self.views_consistent() {
+                    discs.push(d);
+                }
                 let mut sd = compare_state(&model_obs, &real_obs, pred.failures, &it.ever_written);
                 if pred.ok && act.ok {
                     // "returns Ok with every effect of the whole message tree persisted" (C01): the call
@@ -544,6 +561,19 @@ impl World {
                     for d in sd.iter_mut() {
                         if !d.owners.contains(&"C01") {
                             d.owners.push("C01");
+                        }
+                    }
+                }
+                if !pred.ok && !act.ok {
+                    // the call failed (and root storage is unchanged, or the model-free finding above says
+                    // otherwise), yet what App's accessors and queries report is not the state before the
+                    // call: something outside the store was left behind (C01), and "a query issued through
+                    // App observes exactly the committed state" (C10) does not hold
+                    for d in sd.iter_mut() {
+                        for o in ["C01", "C10"] {
+                            if !d.owners.contains(&o) {
+                                d.owners.push(o);
+                            }
                         }
                     }
                 }
@@ -590,6 +620,11 @@ impl World {
                 let extra: BTreeSet<String> = it.st.contracts.keys().cloned().collect();
                 let real_obs = self.observe_real(&extra);
                 let model_obs = World::observe_model(&it.st);
+                // the observation goes through the state dump: if the dump and the accessor disagree about a
+                // contract, that is a disagreement of views (C08), not a wrong state
+                if let Some(d) = self.views_consistent() {
+                    discs.push(d);
+                }
                 let mut sd = compare_state(&model_obs, &real_obs, pred.failures, &it.ever_written);
                 if pred.ok && act.ok {
                     // "returns Ok with every effect of the whole message tree persisted" (C01): the call
@@ -597,6 +632,19 @@ impl World {
                     for d in sd.iter_mut() {
                         if !d.owners.contains(&"C01") {
                             d.owners.push("C01");
+                        }
+                    }
+                }
+                if !pred.ok && !act.ok {
+                    // the call failed (and root storage is unchanged, or the model-free finding above says
+                    // otherwise), yet what App's accessors and queries report is not the state before the
+                    // call: something outside the store was left behind (C01), and "a query issued through
+                    // App observes exactly the committed state" (C10) does not hold
+                    for d in sd.iter_mut() {
+                        for o in ["C01", "C10"] {
+                            if !d.owners.contains(&o) {
+                                d.owners.push(o);
+                            }
                         }
                     }
                 }
@@ -848,6 +896,9 @@ impl TreeCheck {
                             return Ok(());
                         }
                         if id == "C08" {
+                            if w.st.contracts.values().any(|c| c.kv.len() > 100) {
+                                cx.label("contract:holds->100-entries");
+                            }
                             let d = views_agree(&w);
                             if !report(&d, txi, &what, cx)? {
                                 return Ok(());
